@@ -248,102 +248,43 @@ let do_retain (type v) (m : (pfx, v) Trie.pmap ref) (pred : pfx -> v -> bool) (k
   let calls = Stdlib.List.sort cmp calls in
   add ("calls=" ^ plist ppc calls ^ " panicked=" ^ pbool panicked)
 
-let entry_op (m : imap ref) (q : pfx) (ops : string list) =
-  let h = Inst.t_entry !w !fl !m q in
-  let occ = (match h.Trie.hkind_ with Trie.HOcc -> true | Trie.HVac -> false) in
-  let matched = ref false and removed = ref false and consumed = ref false in
-  let tok s = addsp s in
-  let wv () = tok "WV"; raise Stop in
-  let arg s pre = after s pre in
-  Stdlib.List.iter (fun op ->
-    if !consumed then wv ();
-    let entry_level () = if !matched then wv () in
-    let need_occ () = if not occ then wv (); matched := true in
-    let need_vac () = if occ then wv (); matched := true in
-    if op = "get" then (entry_level (); tok (popt (Inst.t_h_get !w !fl !m h)))
-    else if starts op "getmut:" then begin
-      entry_level ();
-      let f = parse_fn (arg op "getmut:") in
-      match Inst.t_h_get !w !fl !m h with
-      | None -> tok "-"
-      | Some old -> let nv = apply_fn f 0 old in
-        m := Inst.t_update_value !w !fl !m q (fun _ -> nv); tok (string_of_int old)
-    end
-    else if op = "key" then (entry_level (); tok (pp (Inst.t_h_key !w !fl !m h)))
-    else if starts op "insert:" then begin
-      entry_level ();
-      let v = int_of_string (arg op "insert:") in
-      consumed := true;
-      if occ then begin
-        let (m', o) = Inst.t_occ_insert !w !fl !m q v in m := m'; tok (popt o)
-      end else begin
-        m := Inst.t_vacant_insert !w !fl !m q v; tok "-"
-      end
-    end
-    else if starts op "or_insert_with:" || starts op "or_insert:" || op = "or_default" then begin
-      entry_level ();
-      consumed := true;
-      if occ then tok (popt (Inst.t_h_get !w !fl !m h))
-      else begin
-        let v =
-          if op = "or_default" then 0
-          else if starts op "or_insert_with:" then
-            (let a = arg op "or_insert_with:" in if a = "panic" then raise Panic else int_of_string a)
-          else int_of_string (arg op "or_insert:") in
-        m := Inst.t_vacant_insert !w !fl !m q v; tok (string_of_int v)
-      end
-    end
-    else if starts op "and_modify:" then begin
-      entry_level ();
-      let f = parse_fn (arg op "and_modify:") in
-      if occ then begin
-        match Inst.t_h_get !w !fl !m h with
-        | Some old -> let nv = apply_fn f 0 old in
-          m := Inst.t_update_value !w !fl !m q (fun _ -> nv)
-        | None -> ()
-      end;
-      tok "ok"
-    end
-    else if op = "occ.key" then (need_occ (); tok (pp (Inst.t_h_key !w !fl !m h)))
-    else if op = "occ.get" then begin
-      need_occ (); if !removed then raise Panic;
-      tok (popt (Inst.t_h_get !w !fl !m h))
-    end
-    else if starts op "occ.getmut:" then begin
-      need_occ (); if !removed then raise Panic;
-      let f = parse_fn (arg op "occ.getmut:") in
-      match Inst.t_h_get !w !fl !m h with
-      | None -> raise Panic
-      | Some old -> let nv = apply_fn f 0 old in
-        m := Inst.t_update_value !w !fl !m q (fun _ -> nv); tok (string_of_int old)
-    end
-    else if starts op "occ.insert:" then begin
-      need_occ ();
-      let v = int_of_string (arg op "occ.insert:") in
-      consumed := true;
-      let (m', o) = Inst.t_occ_insert !w !fl !m q v in
-      m := m';
-      (match o with None -> raise Panic | Some old -> tok (string_of_int old))
-    end
-    else if op = "occ.remove" then begin
-      need_occ (); if !removed then raise Panic;
-      let (m', o) = Inst.t_occ_remove !w !fl !m q in
-      m := m'; removed := true;
-      (match o with None -> raise Panic | Some old -> tok (string_of_int old))
-    end
-    else if op = "vac.key" then (need_vac (); tok (pp q))
-    else if starts op "vac.insert_with:" || starts op "vac.insert:" || op = "vac.default" then begin
-      need_vac ();
-      consumed := true;
-      let v =
-        if op = "vac.default" then 0
-        else if starts op "vac.insert_with:" then
-          (let a = arg op "vac.insert_with:" in if a = "panic" then raise Panic else int_of_string a)
-        else int_of_string (arg op "vac.insert:") in
-      m := Inst.t_vacant_insert !w !fl !m q v; tok (string_of_int v)
-    end
-    else (tok "?"; raise Stop)) ops
+(* Entry API: the handle protocol is the Coq state machine EntryApi.entry_chain (extracted);
+   the driver only parses the actions and prints the tokens. *)
+let parse_eact (op : string) : int EntryApi.eact =
+  let arg pre = after op pre in
+  let wfun a = (let f = parse_fn a in fun old -> apply_fn f 0 old) in
+  let optv a = if a = "panic" then None else Some (int_of_string a) in
+  if op = "get" then EntryApi.EGet
+  else if starts op "getmut:" then EntryApi.EGetMut (wfun (arg "getmut:"))
+  else if op = "key" then EntryApi.EKey
+  else if starts op "insert:" then EntryApi.EInsert (int_of_string (arg "insert:"))
+  else if starts op "or_insert_with:" then EntryApi.EOrInsertWith (optv (arg "or_insert_with:"))
+  else if starts op "or_insert:" then EntryApi.EOrInsert (int_of_string (arg "or_insert:"))
+  else if op = "or_default" then EntryApi.EOrDefault 0
+  else if starts op "and_modify:" then
+    (let a = arg "and_modify:" in EntryApi.EAndModify (if a = "panic" then None else Some (wfun a)))
+  else if op = "occ.key" then EntryApi.OccKey
+  else if op = "occ.get" then EntryApi.OccGet
+  else if starts op "occ.getmut:" then EntryApi.OccGetMut (wfun (arg "occ.getmut:"))
+  else if starts op "occ.insert:" then EntryApi.OccInsert (int_of_string (arg "occ.insert:"))
+  else if op = "occ.remove" then EntryApi.OccRemove
+  else if op = "vac.key" then EntryApi.VacKey
+  else if starts op "vac.insert_with:" then EntryApi.VacInsertWith (optv (arg "vac.insert_with:"))
+  else if starts op "vac.insert:" then EntryApi.VacInsert (int_of_string (arg "vac.insert:"))
+  else if op = "vac.default" then EntryApi.VacDefault 0
+  else failwith ("entry action " ^ op)
 
+let entry_op (m : imap ref) (q : pfx) (ops : string list) =
+  let acts = Stdlib.List.map parse_eact ops in
+  let (m', toks) = InstEntry.t_entry_chain !w !fl !m q acts in
+  m := m';
+  Stdlib.List.iter (fun t ->
+      addsp (match t with
+          | EntryApi.TVal o -> popt o
+          | EntryApi.TPfx p -> pp p
+          | EntryApi.TOk -> "ok"
+          | EntryApi.TWrongVariant -> "WV"
+          | EntryApi.TPanic -> "PANIC")) toks
 
 (* ---------- C14: exclusivity of mutable access (mirrors harness alias / par) ---------- *)
 let rec nodup = function [] -> true | x :: r -> (not (Stdlib.List.mem x r)) && nodup r
